@@ -473,7 +473,12 @@ def k8(F, R):
                         if rid in pids:
                             in_closure.append(y)
             k2 = "%s:per-element-predicate" % b.path
-            reductions = [x["method"] for x in hir_walk(b.hir["value"]) if x.get("k") == "MethodCall" and x["method"] in ("sum", "product", "fold", "reduce", "max", "min")]
+            def _bool_fold(x):
+                # `.fold(true, |ok, v| ok & pred(v))` accumulates booleans, not numbers: the predicate is still applied to each element
+                a = x.get("args") or []
+                return x["method"] == "fold" and len(a) == 2 and K.peel(a[0]).get("k") == "Lit" and K.peel(a[0])["lit"].get("lk") == "bool" and str(x.get("ty")) == "bool"
+            reductions = [x["method"] for x in hir_walk(b.hir["value"]) if x.get("k") == "MethodCall" and x["method"] in ("sum", "product", "fold", "reduce", "max", "min")
+                          and not _bool_fold(x)]
             deleg = _finite_kernel_delegation(F, b) if not fin else None
             if deleg:
                 R.ok("C17-K8", k2, site, deleg)
